@@ -158,7 +158,7 @@ class Interp:
             return TOP
         if isinstance(v, Ref):
             tgt = self.read_ref(env, v)
-            if isinstance(tgt, (Sym, HRef)) or hasattr(tgt, "vid"):
+            if isinstance(tgt, Sym) or (hasattr(tgt, "vid") and not isinstance(tgt, HRef)):
                 return tgt       # symbols and heap handles are reference-like themselves
             if isinstance(tgt, Ref):
                 return self.freeze(env, tgt, depth + 1)
@@ -518,6 +518,21 @@ class Interp:
             return self.operand(env, rv[1])
         if k in ("ref", "rawptr"):
             p = rv[2]
+            # `&v[i]` with v a modelled heap vector (possibly behind references / captured): an element reference
+            if p[1] and isinstance(p[1][-1], list) and p[1][-1][0] in ("i", "ci"):
+                base = self.read_place(env, [p[0], p[1][:-1]])
+                hops = 0
+                while isinstance(base, Ref) and hops < 4:
+                    base = self.read_ref(env, base)
+                    hops += 1
+                if hasattr(base, "vid") and not isinstance(base, HRef):
+                    items = self.mstate.get("heap", {}).get(base.vid, ())
+                    lo_ = getattr(base, "lo", None) or 0
+                    n_ = (base.hi - lo_) if getattr(base, "lo", None) is not None else len(items)
+                    e = p[1][-1]
+                    idx = env.get(e[1], TOP) if e[0] == "i" else ((n_ - e[1]) if e[2] else e[1])
+                    if isinstance(idx, int) and not isinstance(idx, bool) and 0 <= idx < n_:
+                        return HRef(base.vid, lo_ + idx)
             # &*r  ==> r   ;  & (*r).f  ==> Ref(target.f)
             if p[1] and p[1][0] == "*":
                 base = env.get(p[0], TOP)
@@ -882,6 +897,22 @@ def std_oracle(interp, env, f, args, t, bb, path):
         v = deref(a0)
         if isinstance(v, Agg) and v.name == "core::option::Option":
             return ok(v.fields[0]) if v.variant == "Some" else err(TOP)
+        return TOP
+    if key in ("core::option::Option::replace", "core::option::Option::take", "core::mem::take") and isinstance(a0, (Ref, HRef)):
+        old = deref(a0)
+        if isinstance(old, Agg) and old.name == "core::option::Option":
+            new_v = some(args[1]) if key.endswith("replace") else NONE
+            if isinstance(a0, Ref):
+                interp.write_ref(env, a0, new_v)
+            else:
+                h = dict(interp.mstate.get("heap", {}))
+                items = list(h.get(a0.vid, ()))
+                if a0.idx >= len(items):
+                    return TOP
+                items[a0.idx] = new_v
+                h[a0.vid] = tuple(items)
+                interp.mstate["heap"] = h
+            return old
         return TOP
     if key in ("core::option::Option::as_ref", "core::option::Option::as_mut", "core::option::Option::as_deref", "core::option::Option::as_deref_mut"):
         return deref(a0)
